@@ -65,6 +65,10 @@ def cases(ctx):
         for mask in (0b1111111, 0b1010011, 0b0001011):
             for wi in range(3):
                 yield ("settings9999", which, mask, wi)
+        # value classes of the numeric naming values: all zero (a present 0 is not "missing"), the largest values, a two-byte version
+        for mask in range(128):
+            for vc in ("zero", "max", "wide-version", "version-zero"):
+                yield ("settings", which, mask, 0, 2, vc)
 
 
 def ident_of(c):
@@ -191,6 +195,17 @@ def run_case(ctx, case):
         widths = [(4, 2, 2, 1), (2, 2, 1, 1), (1, 1, 2, 1)][wi]   # customer, project, device, version
         vals = {0x01: (10234 if widths[0] >= 2 else 234, widths[0]), 0x05: (5678 if widths[1] >= 2 else 56, widths[1]),
                 0x02: (6789 if widths[2] >= 2 else 89, widths[2]), 0x07: (9, 1), 0x04: (12, 1)}
+        vc = case[5] if len(case) > 5 else None
+        if vc == "zero":
+            vals = {0x01: (0, 4), 0x05: (0, 2), 0x02: (0, 2), 0x07: (0, 1), 0x04: (0, 1)}
+        elif vc == "max":
+            vals = {0x01: (99999, 4), 0x05: (9998, 2), 0x02: (9998, 2), 0x07: (99, 1), 0x04: (99, 1)}
+        elif vc == "wide-version":
+            vals[0x07] = (9, 2)
+            vals[0x04] = (12, 2)
+        elif vc == "version-zero":
+            vals[0x07] = (0, 1)
+            vals[0x04] = (0, 1)
         if kind == "settings9999":
             vals[0x05] = (9999, 2)
             vals[0x02] = (9999, 2)
